@@ -147,6 +147,8 @@ type World struct {
 	proxyUp   bool
 	authUp    bool
 	BootErr   error
+	// LoaderPanic is set when the configuration loader crashed instead of returning an error.
+	LoaderPanic string
 
 	firedMu sync.Mutex
 	Fired   map[string]int // fault kinds that actually fired (not merely armed)
@@ -474,7 +476,12 @@ func (w *World) BootProxy() error {
 	if err := pc.Validate(); err != nil {
 		return fmt.Errorf("proxy config invalid: %w", err)
 	}
-	if err := proxy.SetUpstreamConfigs(&pc.UpstreamConfigs, pc.SessionConfig.CookieConfig, &pc.ServerConfig); err != nil {
+	if err := safely(func() error {
+		return proxy.SetUpstreamConfigs(&pc.UpstreamConfigs, pc.SessionConfig.CookieConfig, &pc.ServerConfig)
+	}); err != nil {
+		if strings.HasPrefix(err.Error(), "panic:") {
+			w.LoaderPanic = err.Error()
+		}
 		return err
 	}
 	w.Resolved = pc.UpstreamConfigs.VerifResolved()
@@ -557,6 +564,16 @@ func (w *World) StopNode(host string) {
 		srv.Close()
 	}
 	w.Net.ResetHost(host)
+}
+
+// safely runs f and turns a panic of the code under test into an error (a crash at boot is an outcome to judge).
+func safely(f func() error) (err error) {
+	defer func() {
+		if r := recover(); r != nil {
+			err = fmt.Errorf("panic: %v", r)
+		}
+	}()
+	return f()
 }
 
 // AuthCookieName is the authenticator's session cookie name for this world.
